@@ -2,9 +2,10 @@ SPECIFICATION Spec
 CONSTANTS
   Rate = 7
   MsPerDay = 5
-  Gaps = {1, 2, 7, 11}
+  NsPerMs = 3
+  Gaps = {1, 2, 4, 7, 11}
   Amts = {1, 3}
-  MaxT = 22
+  MaxT = 27
 INVARIANTS InflationBound NoMintBeforeStart
 PROPERTY SplitExact
 CONSTRAINT Bound
